@@ -8,6 +8,6 @@ TESTS = [
       {"checks": 25000, "shards": 4, "timeout": 1500}),
 ]
 ASSUMPTIONS = [
-    "C14 for pkg/filesystem/virtual/nfsv4 (NFSv4.1 program, OpenedFilesPool) and the NFS handle pool: the locks are probed with the verif-tagged TryLock hooks at every quiescence of generated multi-client histories (all requests returned or parked inside leaf I/O / around VirtualOpenChild, where the program holds none of its locks); the lock of a client incarnation that has a request in flight is not probed by VerifStateCounts (the hook skips it), a leak there shows as a later request of that client that never returns, which a 45 s real-time watchdog outside the synctest bubble reports",
+    "C14 for pkg/filesystem/virtual/nfsv4 (NFSv4.1 program, OpenedFilesPool) and the NFS handle pool: the locks are probed with the verif-tagged TryLock hooks at every quiescence of generated multi-client histories (all requests returned or parked inside leaf I/O / around VirtualOpenChild, where the program holds none of its locks); the lock of a client incarnation that has a request in flight is not probed by VerifStateCounts (the hook skips it) but by VerifClientLocksFree, which TryLocks the lock of every client incarnation after every request: the harness parks requests only inside VirtualRead/VirtualWrite and immediately before/after VirtualOpenChild, and a duplicate of an in-flight request waits on a channel after leaving the program lock, so no request that has not returned is inside a client incarnation lock at quiescence; a request that blocks on a mutex within its own step (before the next probe) is still reported by the 45 s real-time watchdog outside the synctest bubble",
     "C14/nfs41: error returns are reached through generated state-ID/file-handle/range deviations and one-shot injected failures (StatusErrIO, StatusErrAccess, StatusErrNoEnt) of VirtualOpenChild, VirtualOpenSelf, file allocation, VirtualRead, VirtualWrite and VirtualSetAttributes; the returns reached are listed as labels error_return:<operation>:<status>",
 ]
